@@ -1,23 +1,15 @@
 (* C10 — combined statements (conjunctions of lemmas proved elsewhere) in the form Properties_C10.v states them. *)
 From Coq Require Import ZArith List Bool Lia.
-From Verif Require Import Sections.SectionModel Sections.SectionProofs Sections.SectionTable Sections.CopyProofs Sections.ShrinkProofs.
+From Verif Require Import Sections.SectionModel Sections.SectionProofs Sections.SectionTable Sections.CopyProofs Sections.ShrinkProofs
+  Sections.StableProofs Sections.CoverProofs Sections.SettleProofs.
 Import ListNotations.
 Local Open Scope Z_scope.
-
-Lemma code_size_is_end_all h h' : wf_holder h -> flatten h = (EOk, h') ->
-  (forall l1 s, h' = l1 ++ [s] -> code_size h' = soff s + real_size s) /\
-  (forall s, In s h' -> 0 <= soff s /\ soff s + real_size s <= code_size h' /\ code_size h' < W64) /\
-  code_size h' = code_size h.
-Proof.
-  intros Hwf E. split; [exact (code_size_is_end h h' Hwf E)|].
-  split; [exact (code_size_bounds_all h h' Hwf E)|exact (code_size_stable h h' Hwf E)].
-Qed.
 
 Lemma code_size_overflow_all h : wf_holder h ->
   (pass1 0 h = false <-> flatten h = (ETooLarge, h)) /\ (pass1 0 h = false -> code_size h = SIZE_MAX) /\
   (pass1 0 h = true -> exists h', flatten h = (EOk, h') /\ code_size h < W64).
 Proof.
-  intros Hwf. split; [exact (flatten_fail_iff h)|]. split; [exact (code_size_overflow h Hwf)|].
+  intros Hwf. split; [split; [intros Hp; apply flatten_final_fail; assumption|intros Hf; apply flatten_final_fail; assumption]|]. split; [exact (code_size_overflow h Hwf)|].
   intros Hp. unfold flatten. rewrite Hp. eexists. split; [reflexivity|].
   rewrite (code_size_before h Hwf Hp). pose proof W64_pos. apply lend_lt; [lia|]. apply assign_laid; [assumption|lia|assumption].
 Qed.
@@ -27,4 +19,4 @@ Qed.
 Lemma copy_refuses_small_all :
   (forall l mem dst ps pt, fst (copy_flat l mem dst ps pt) = if existsb (too_small dst) l then EInvalidArgument else EOk) /\
   (forall h h' dst, wf_holder h -> flatten h = (EOk, h') -> code_size h' <= dst -> existsb (too_small dst) h' = false).
-Proof. split; [exact copy_flat_err|exact copy_accepts_code_size]. Qed.
+Proof. split; [exact copy_flat_err|exact final_copy_accepts_code_size]. Qed.
